@@ -46,9 +46,20 @@ SRC = None
 M = {}
 
 
+def preimport():
+    """Every joserfc module is imported before anything is scheduled: a first import inside a traced thread would hold the
+    module's import lock across a forced switch and dead-lock the other thread on it (a harness artefact, not a race)."""
+    import importlib
+    import pkgutil
+    import joserfc
+    for mod in pkgutil.walk_packages(joserfc.__path__, "joserfc."):
+        importlib.import_module(mod.name)
+
+
 def material():
     if M:
         return M
+    preimport()
     ref = {
         "oct1": {"kty": "oct", "k": bytes(range(32))}, "oct2": {"kty": "oct", "k": bytes(range(100, 132))}, "oct16": {"kty": "oct", "k": bytes(range(16))},
         "ec": gk.ec_from_d("P-256", 0xC0FFEE1234567), "ec2": gk.ec_from_d("P-256", 0xBADC0DE7654321), "ed": gk.okp_from_seed("Ed25519", bytes(range(32))),
